@@ -2,7 +2,7 @@
 EXTENDS Ident, TLC
 CONSTANT MaxVer
 Next ==
-  \/ \E r \in Replica : nver < MaxVer /\ NewIdent(r)
+  \/ \E r \in Replica, k \in 1..2 : nver + k <= MaxVer /\ NewIdent(r, k)
   \/ \E r \in Replica, i \in Idents : nver < MaxVer /\ Mutate(r, i)
   \/ \E r \in Replica : Push(r)
   \/ \E r \in Replica : Fetch(r)
